@@ -13,7 +13,8 @@ import os
 import random
 import re
 
-from vf.runner import use_repo, ToolError, REPO
+from vf.runner import use_repo, ToolError, REPO, h64
+from vf import explore, interleave
 from vf.refproto import codec as ref
 
 LEVEL = 'exploration'
@@ -56,7 +57,17 @@ RULE = (
     'the frame the same packet produces in a clean state (written twice in '
     'a row beforehand, both must agree) and must round-trip.  A poisoned '
     'write that does not raise is counted, not judged.  Every instance and '
-    'sequence is distinct by construction: (version, class, label).')
+    'sequence is distinct by construction: (version, class, label).  '
+    'Concurrency (protocol 757): pairs of packet operations (write of 7 '
+    'serverbound and 2 clientbound packets, some compressed; read of 7 '
+    'clientbound packets) are run by two threads sharing one context under '
+    'the controlled scheduler, every source line of types/basic, '
+    'types/utility, types/enum, packets/packet, packet_buffer and the '
+    'hand-written clientbound packet modules a scheduling point; quick: all '
+    '36 pairs of 9 operations with <= 1 preemption; thorough: all 120 pairs '
+    'of 16 with <= 1 and the 6 pairs of four small operations with <= 2; '
+    'each thread must get the frame / the decoded fields it gets alone, '
+    'also afterwards.')
 ASSUMPTIONS = [
     'the version thresholds at which the six hand-written codecs carry '
     'optional fields (MapPacket 107/364/373/452, SpawnObjectPacket '
@@ -1659,7 +1670,205 @@ def tier_versions(ctx):
 
 # ---------------------------------------------------------------------------
 
+# -- concurrent packet codecs ---------------------------------------------------
+# Writing or reading one packet must not depend on what another thread is
+# writing or reading at the same time (the networking thread encodes queued
+# packets while user threads build and force-write their own, and several
+# connections share the process).  Every pair of operations below is run by
+# two threads under the controlled scheduler, every source line of the codec
+# modules a scheduling point; each thread must observe what it observes alone.
+
+RACE_MODULES = ('minecraft.networking.types.basic',
+                'minecraft.networking.types.utility',
+                'minecraft.networking.types.enum',
+                'minecraft.networking.packets.packet',
+                'minecraft.networking.packets.packet_buffer',
+                'minecraft.networking.packets.clientbound.play.map_packet',
+                'minecraft.networking.packets.clientbound.play.'
+                'player_list_item_packet',
+                'minecraft.networking.packets.clientbound.play.'
+                'block_change_packet',
+                'minecraft.networking.packets.clientbound.play.'
+                'explosion_packet',
+                'minecraft.networking.packets.clientbound.play.'
+                'join_game_and_respawn_packets')
+RACE_VERSION = 757
+RACE_OPS = [
+    ('serverbound', 'play', 'ChatPacket', 'write', None),
+    ('serverbound', 'play', 'ChatPacket', 'write', 1),
+    ('serverbound', 'play', 'PositionAndLookPacket', 'write', None),
+    ('serverbound', 'play', 'KeepAlivePacket', 'write', None),
+    ('serverbound', 'play', 'ClientSettingsPacket', 'write', 16),
+    ('serverbound', 'play', 'PluginMessagePacket', 'write', None),
+    ('serverbound', 'play', 'PlayerBlockPlacementPacket', 'write', None),
+    ('clientbound', 'play', 'MapPacket', 'write', None),
+    ('clientbound', 'play', 'PlayerListItemPacket', 'write', 1),
+    ('clientbound', 'play', 'ChatMessagePacket', 'read', None),
+    ('clientbound', 'play', 'MapPacket', 'read', None),
+    ('clientbound', 'play', 'PlayerListItemPacket', 'read', None),
+    ('clientbound', 'play', 'JoinGamePacket', 'read', None),
+    ('clientbound', 'play', 'MultiBlockChangePacket', 'read', None),
+    ('clientbound', 'play', 'ExplosionPacket', 'read', None),
+    ('clientbound', 'play', 'KeepAlivePacket', 'read', None),
+]
+
+
+RACE_QUICK = (0, 1, 2, 6, 7, 9, 11, 12, 13)
+RACE_DEEP = (1, 3, 9, 15)
+
+
+def _race_class(direction, state, name):
+    import importlib
+    mod = importlib.import_module('minecraft.networking.packets.%s.%s'
+                                  % (direction, state))
+    return getattr(mod, name)
+
+
+def _race_state(p):
+    def canon(v, depth=0):
+        if depth > 6:
+            return '...'
+        if isinstance(v, (list, tuple)):
+            return [canon(x, depth + 1) for x in v]
+        if isinstance(v, (bytes, bytearray)):
+            return bytes(v).hex()
+        if hasattr(v, '__slots__') or (hasattr(v, '__dict__') and
+                                        not isinstance(v, type)):
+            names = []
+            for c in type(v).__mro__:
+                names += list(getattr(c, '__slots__', ()))
+            names += list(getattr(v, '__dict__', {}))
+            return (type(v).__name__,
+                    [(n, canon(getattr(v, n, None), depth + 1))
+                     for n in sorted(set(names)) if n != 'context'])
+        return repr(v)
+    return repr(canon(p))
+
+
+_RACE_MAT = {}      # harness data only (instances, reference payloads)
+_RACE_ENV = {}
+
+
+def race_op(env, op):
+    direction, state, name, kind, threshold = op
+    cls = _race_class(direction, state, name)
+    if (env.version, op) not in _RACE_MAT:
+        base, _ = history_material(env, cls, False)
+        first, frame = clean_frame(env, cls, base)
+        if frame is None:
+            raise ToolError('C05 race: %s cannot be written at %d'
+                            % (name, env.version))
+        r = ref.Reader(frame)
+        rb = ref.Reader(r.take(r.varnum()))
+        rb.varnum()
+        _RACE_MAT[env.version, op] = (base, rb.rest())
+    base, payload = _RACE_MAT[env.version, op]
+
+    def write():
+        buf = env.PacketBuffer()
+        p = build_packet(cls, env.context, base)
+        if threshold is None:
+            p.write(buf)
+        else:
+            p.write(buf, threshold)
+        return buf.get_writable().hex()
+
+    def read():
+        pb = env.PacketBuffer()
+        pb.send(payload)
+        pb.reset_cursor()
+        new = cls(context=env.context)
+        new.read(pb)
+        return _race_state(new), len(pb.read())
+    return write if kind == 'write' else read
+
+
+def race_body(W, params):
+    use_repo()
+    if params['version'] not in _RACE_ENV:
+        _RACE_ENV[params['version']] = Env(params['version'], 0)
+    env = _RACE_ENV[params['version']]
+    ops = [race_op(env, tuple(o)) for o in params['ops']]
+
+    def alone_run():
+        out = []
+        for f in ops:
+            try:
+                out.append(('ok', f()))
+            except Exception as e:
+                out.append(('exc', '%s: %s' % (type(e).__name__, e)))
+        return out
+    alone = alone_run()
+    got = interleave.race(W, ops)
+    again = alone_run()
+    viol = []
+    for i, o in enumerate(params['ops']):
+        what = '%s %s/%s/%s%s' % (o[3], o[0], o[1], o[2],
+                                  '' if o[4] is None else
+                                  ' threshold=%d' % o[4])
+        other = params['ops'][1 - i]
+        if got[i] != alone[i]:
+            viol.append(('concurrent %s differs' % what,
+                         'protocol %d: %s run concurrently with %s %s gave '
+                         '%s; alone it gives %s'
+                         % (params['version'], what, other[3], other[2],
+                            str(got[i])[:300], str(alone[i])[:300])))
+        if again[i] != alone[i]:
+            viol.append(('after concurrent use %s differs' % what,
+                         'protocol %d: %s gives %s after the concurrent '
+                         'run, %s before' % (params['version'], what,
+                                             str(again[i])[:300],
+                                             str(alone[i])[:300])))
+    return {'outcome': tuple(h64(repr(g)) for g in got), 'violations': viol}
+
+
+def race_factory(params):
+    def scenario(prefix, expect, visited=None, budget=0):
+        return interleave.run(lambda W: race_body(W, params), prefix, expect,
+                              budget, modules=RACE_MODULES, horizon=400000)
+    return scenario
+
+
+def run_races(ctx, ex):
+    # quick: every pair of the 9 operations in RACE_QUICK, <= 1 preemption;
+    # thorough: every pair of all operations with <= 1, and the pairs of the
+    # four small operations in RACE_DEEP with <= 2
+    allp = [(i, j) for i in range(len(RACE_OPS))
+            for j in range(i + 1, len(RACE_OPS))]
+    if ctx.thorough:
+        pairs = [(i, j, 2 if i in RACE_DEEP and j in RACE_DEEP else 1)
+                 for i, j in allp]
+    else:
+        pairs = [(i, j, 1) for i, j in allp
+                 if i in RACE_QUICK and j in RACE_QUICK]
+    bound = max(b for _, _, b in pairs)
+    execs = 0
+    for i, j, b in pairs:
+        res = ex.explore(ctx, race_factory,
+                         {'version': RACE_VERSION,
+                          'ops': [list(RACE_OPS[i]), list(RACE_OPS[j])]},
+                         b, label='race ')
+        execs += res.execs
+        ctx.cls('concurrent pair of packet codec calls, all schedules')
+    ctx.extra['concurrent'] = {
+        'version': RACE_VERSION, 'operations': len(RACE_OPS),
+        'pairs': len(pairs), 'preemption_bound': bound,
+        'schedules_executed': execs,
+        'points': 'every source line of ' + ', '.join(RACE_MODULES)}
+
+
 def run(ctx):
+    use_repo()
+    ex = explore.Explorer(memo=False)   # forks its workers before anything runs
+    try:
+        _run(ctx)
+        if not ctx.violations:
+            run_races(ctx, ex)
+    finally:
+        ex.close()
+
+
+def _run(ctx):
     use_repo()
     versions, info = tier_versions(ctx)
     order = list(versions)
@@ -1711,6 +1920,16 @@ def run(ctx):
 
 def replay(ctx, case):
     use_repo()
+    if 'choices' in case:
+        x = race_factory(case['params'])(list(case['choices']), None, None,
+                                         'replay')
+        res = x.result or {}
+        viol = list(res.get('violations', ()))
+        if x.failure is not None:
+            viol.append((x.failure[0], '%s: %s' % x.failure))
+        for key, what in viol:
+            ctx.violation('race %s' % key, what, case)
+        return
     seed = case.get('seed', ctx.seed)
     env = Env(case['version'], seed)
     if case.get('tier'):
